@@ -150,6 +150,11 @@ def eval_case(spec):
                         v.violation('c06:enum-undecoded-128-bit-discriminant:any:local', 'enum with a 128-bit discriminant is shown without a variant',
                                     dict(d, got=str(got)[:300]), prop='C06')
                         continue
+                    from .c06 import has_single_variant_cenum
+                    if has_single_variant_cenum(var['type']) and valcmp.contains_undecoded_enum(got):
+                        v.violation('c06:enum-undecoded-zero-sized-single-variant:any:local', 'a field-less enum with a single variant is shown without a variant',
+                                    dict(d, got=str(got)[:300]), prop='C06')
+                        continue
                 if mism:
                     v.violation(f'c07:eval:wrong-value:{tag}', 'the expression evaluates to a different value than the documented meaning',
                                 dict(d, mismatches=mism[:4], want=str(exp)[:400], got=str(got)[:600]))
